@@ -181,7 +181,7 @@ def drange(t0 = None, t1 = None, bump = None):
         if bump == bmp and (bump[-1] == 'b' or int(bump[:-1]) > 0): ## single bump; rrule cannot walk backwards (nor stand still), so these are iterated with dt_bump below
             prd = bump[-1]
             interval = int(bump[:-1]) * dict(q = 3).get(prd ,1)
-            if (t1-t0).days * interval < 0:
+            if (t1-t0).days * interval < 0 or interval == 0: ## '0b' stands still, like 0, timedelta(0) and '0d'
                 raise ValueError('cannot go from %s to %s in steps of %s'%(t0,t1,bump))
             freq = _LY[prd]
             if prd == 'b':
